@@ -94,7 +94,15 @@ C07g == { Scn("C07g", F(<<L("a", "T2", "")>>, <<>>), ins, cs) :
 C07h == { Scn("C07h", F(<<L("a", "T2", "")>>, <<>>), ins, <<F(<<L("f", "T3", ""), L("", "T1", "")>>, <<o>>)>>) :
             ins \in UNION {PermSeqs(S) : S \in {{L("a", "T1", ""), L("b", "T1", ""), L("f", "T3", "")}}},
             o \in C07ConvOut }
-C07Family == C07a \cup C07b \cup C07c \cup C07d \cup C07e \cup C07f \cup C07g \cup C07h
+\* three and more values share the parameter's name: a same-named value of another type and subtype is supplied as well, or an
+\* unrelated converter produces one (every same-named vertex gets the discount; the same-named T1 value is still the one converted)
+C07i == { Scn("C07a", F(<<L("a", "T2", "")>>, <<>>), ins, cs) :
+            ins \in UNION {PermSeqs(S) : S \in {{L("a", "T1", ""), L("b", "T1", ""), L("a", "T4", "x")}, {L("a", "T1", ""), L("b", "T1", ""), L("a", "T4", "x"), L("a", "T5", "y")}}},
+            cs \in {<<F(<<L("", "T1", "")>>, <<o>>)>> : o \in C07ConvOut} }
+        \cup { Scn("C07a", F(<<L("a", "T2", "")>>, <<>>), ins, cs) :
+            ins \in UNION {PermSeqs(S) : S \in {{L("a", "T1", ""), L("b", "T1", ""), L("", "T3", "")}}},
+            cs \in UNION {PermSeqs({F(<<L("", "T1", "")>>, <<o>>), F(<<L("", "T3", "")>>, <<L("a", "T5", "")>>), F(<<L("", "T3", "")>>, <<L("a", "T4", "x")>>)}) : o \in C07ConvOut} }
+C07Family == C07a \cup C07b \cup C07c \cup C07d \cup C07e \cup C07f \cup C07g \cup C07h \cup C07i
 
 -----------------------------------------------------------------------------
 \* single-input converter digraphs over three types: every subset of the six type-only converters
